@@ -31,7 +31,7 @@ CORPUS = [
     "struct{}", "struct{ A int }", 'struct{ A int "x:1" }', 'struct{ A int `json:"a,omitempty"`; b string "k" }', "struct{ p.T }", "struct{ *p.T; q.U }",
     "struct{ a int; B *p.T }", "struct{ _ int }", "interface{}", "interface{ M() int }", "interface{ M() int; k() }", "interface{ p.K }", "interface{ p.Ka; q.Kb }",
     "p.T", "*p.T", "p.E", "p.Ptr", "*p.Ptr", "**p.Ptr", "[]p.Ptr", "p.Fn", "p.Sl", "p.Mp", "p.I", "p.J", "p.K", "p.Mix", "p.MixT", "*p.MixT", "p.Em", "*p.Em",
-    "p.AT", "p.AI", "p.G[int]", "p.G[*int]", "p.G[p.T]", "p.G[q.T]", "p.G[[]p.T]", "p.G[map[string]*q.T]", "p.G[p.G[int]]", "p.H[string, p.Ptr]", "*p.G[string]",
+    "p.AT", "p.AI", "struct{ p.AT }", "p.G[int]", "p.G[*int]", "p.G[p.T]", "p.G[q.T]", "p.G[[]p.T]", "p.G[map[string]*q.T]", "p.G[p.G[int]]", "p.H[string, p.Ptr]", "*p.G[string]",
     "p.G[interface{ M() int }]", "p.G[any]", "p.G[error]", "p.G[chan (<-chan int)]", "p.G[map[*int]bool]", "T", "*T", "G[T]", "G[q.T]", "Mix", "MixT", "Ptr", "*Ptr",
     "[2][]map[string]*p.G[byte]", "map[[2]p.E]chan<- func(...p.S) error", "p.G[func(int)]", "p.G[struct{ A int }]",
 ]
@@ -186,7 +186,7 @@ def explain_string(go, llgo):
 
 def run(ctx, args):
     quick = ctx.tier == "quick"
-    n = int(os.environ.get("C15_TYPES", "2500")) if quick else 40000
+    n = int(os.environ.get("C15_TYPES", "2500" if quick else "30000"))
     rng = ctx.rng
     st = lean_check(ctx, ["LlgoVerif.Props.C15"], ["LlgoVerif/Props/C15.lean"],
                     extra_files=["LlgoVerif/Model/TypeStr.lean", "LlgoVerif/Model/GoType.lean", "LlgoVerif/Lemmas/TypeStr.lean"],
@@ -438,6 +438,17 @@ def ir_tie(ctx, types_, descs, stats, corr_bad):
             li = [(unhexs(dd["IM"][k]), unhexs(dd["IM"][k + 1]).decode()) for k in range(0, len(dd["IM"]), 2)]
             if (e["imethods"] or []) != li:
                 corr_bad.append((i, types_[i][1], "IR imethod table of %s: emitted %s, expected %s" % (dd["sym"], e["imethods"], li)))
+    if not quick:
+        # witness of the known compiler panic (kept out of the package above)
+        wd = os.path.join(ctx.scratch, "irpanic")
+        e2e.write_module(wd, {"p/p.go": "package p\n\ntype G[A any] struct{ V A }\n\nfunc (G[A]) M() int { return 0 }\n",
+                              "main.go": "package main\n\nimport \"%s/p\"\n\nvar V struct{ p.G[int] }\nvar Keep any = &V\n\nfunc main() { println(Keep != nil) }\n" % tg.MOD}, modname=tg.MOD)
+        wp = sh([ctx.llgo, "build", "-tags", "nogc", "-O0", "-o", os.path.join(wd, "prog0"), "."], cwd=wd, env=env)
+        if wp.returncode != 0 and "invalid recv type" in (wp.stdout + wp.stderr):
+            ctx.report("emit:struct-embedding-generic-instance", "llgo panics while emitting the descriptor of an unnamed struct that embeds a generic instance with methods",
+                       {"program": "var V struct{ p.G[int] }; var Keep any = &V", "llgo": (wp.stdout + wp.stderr)[:400]})
+        elif wp.returncode != 0:
+            ctx.report("emit:struct-embedding-generic-instance:other:" + (wp.stdout + wp.stderr)[:80], "llgo cannot build the struct-embedding-generic-instance witness", {"llgo": (wp.stdout + wp.stderr)[:2000]})
     ctx.log("tie A: %d descriptors of %d types read back from llgo's IR (%d symbols in the module, %d not emitted)" % (compared, len(pick), len(ir), missing))
     stats["ir-descriptors-compared"] = compared
     return {"ran": True, "descriptors_compared": compared, "symbols_in_module": len(ir), "types_requested": len(pick), "not_emitted": missing}
